@@ -9,6 +9,7 @@ structure S where
   db : DB := newDB
   snaps : Array (List TableS) := #[]
   dones : Array (Nat × String) := #[]      -- registered initializers (table, name)
+  kept : Array String := #[]              -- results of queries whose sequence is iterated later
   deriving Inhabited
 
 def tableIdx : String → Option Nat
@@ -137,6 +138,25 @@ def step (s : S) (ws0 : List String) : S × String :=
             (s, r)
           | none => (s, "bad-op")
         | _, _, _ => (s, "bad-op")
+      | "klist", [h, tn, ix, k] | "kprefix", [h, tn, ix, k] | "klb", [h, tn, ix, k] =>
+        -- the query is made now; its (lazily evaluated) sequence is iterated by a later `kdrain`
+        match handle s h, tableIdx tn, parseIdx ix with
+        | some (ts, _), some ti, some ix =>
+          if h == "w" then (s, "bad-op") else
+          match parseQKey ix k with
+          | some (key, pl) =>
+            let t := getT ts ti
+            let r := match op with
+              | "klist" => showObjs (qList t ix key pl)
+              | "kprefix" => showObjs (qPrefix t ix key pl)
+              | _ => showObjs (qLowerBound t ix key pl)
+            ({ s with kept := s.kept.push r }, s!"k{s.kept.size}")
+          | none => (s, "bad-op")
+        | _, _, _ => (s, "bad-op")
+      | "kdrain", [i] =>
+        match i.toNat? >>= (s.kept[·]?) with
+        | some r => (s, r)
+        | none => (s, "bad-op")
       | "all", [h, tn] =>
         match handle s h, tableIdx tn with
         | some (ts, _), some ti => (s, showObjs (qAll (getT ts ti)))
